@@ -16,7 +16,7 @@ Contents
 """
 import zlib
 
-from coba.primitives import Learner, Evaluator, EnvironmentFilter
+from coba.primitives import Learner, Evaluator, EnvironmentFilter, is_batch
 from coba.context import CobaContext
 from coba.safety import SafeLearner
 
@@ -39,27 +39,48 @@ class HistoryLearner(Learner):
     fmt: 'a' -> {'action': action}, 'ap' -> (action, prob), 'pmf' -> pmf, 'ap_kw' -> (action, prob, {'k':..}),
          'pmf_kw' -> (pmf, {'k':..}).  The kwargs value must come back unchanged in learn().
     score: implement `score` (needed by RejectionCB / ips evaluation without predict).
+    batch: this INSTANCE understands batched calls (fmt 'ap'/'pmf' only): it answers a whole batch row-major from the state
+           before the batch and makes ONE update per batch. Without the flag a batched call raises, so coba's SafeLearner
+           falls back to calling it row by row - same class, different calling convention per instance.
     info: write a value depending on the history into CobaContext.learning_info on every learn().
     """
-    def __init__(self, tag, fmt="ap", score=False, info=False):
+    def __init__(self, tag, fmt="ap", score=False, info=False, batch=False):
         self.tag = tag
         self.fmt = fmt
         self.has_score = score
         self.info = info
+        self.batch = bool(batch) and fmt in ("ap", "pmf")     # per-instance flag: ONE class, batch-capable or not
         self.h = h32("init", tag)
         self.n_pred = 0
         self.n_learn = 0
-        self.mem = {"trace": []}      # nested mutable state: a shallow copy of the learner would share it
+        self.mem = {"trace": [], "issued": []}      # nested mutable state: a shallow copy of the learner would share it
 
     @property
     def params(self):
-        return {"family": "History", "tag": self.tag, "fmt": self.fmt}
+        return {"family": "History", "tag": self.tag, "fmt": self.fmt, "batch": self.batch}
 
-    def _pmf(self, context, actions):
+    def _pmf(self, context, actions, salt=None):
         tr = self.mem["trace"]
-        w = [1 + h32(self.h, len(tr), tr[-1] if tr else 0, "w", context, i) % 7 for i in range(len(actions))]
+        w = [1 + h32(self.h, len(tr), tr[-1] if tr else 0, "w", context, i, salt) % 7 for i in range(len(actions))]
         t = float(sum(w))
         return [x / t for x in w]
+
+    def _no_batches(self):
+        # a learner without batch support fails *visibly* on a batch (coba then falls back to calling it row by row)
+        raise TypeError(f"HistoryLearner {self.tag} was configured without batch support")
+
+    def _predict_batch(self, context, actions):
+        """row-major answer for a whole batch, all rows answered from the state before the batch"""
+        self.n_pred += 1
+        ctxs = list(context) if is_batch(context) else [context] * len(actions)
+        out = []
+        for j, (c, A) in enumerate(zip(ctxs, actions)):
+            pmf = self._pmf(c, A, salt=j)
+            if self.fmt == "pmf": out.append(pmf)
+            else:
+                i = h32(self.h, len(self.mem["trace"]), "pick", c, j) % len(A)
+                out.append((A[i], pmf[i]))
+        return out
 
     def score(self, context, actions, action):
         if not self.has_score:
@@ -67,9 +88,13 @@ class HistoryLearner(Learner):
         return self._pmf(context, actions)[list(actions).index(action)]
 
     def predict(self, context, actions):
+        if is_batch(actions) or is_batch(context):
+            if not self.batch: self._no_batches()
+            return self._predict_batch(context, actions)
         self.n_pred += 1
         pmf = self._pmf(context, actions)
         kw = {"k": self.h % 100003}
+        if self.fmt.endswith("_kw"): self.mem["issued"].append(kw["k"])
         if self.fmt == "pmf": return pmf
         if self.fmt == "pmf_kw": return pmf, kw
         i = h32(self.h, len(self.mem["trace"]), "pick", context) % len(actions)
@@ -79,11 +104,23 @@ class HistoryLearner(Learner):
         raise ValueError(self.fmt)
 
     def learn(self, context, action, reward, probability, **kwargs):
+        if is_batch(context) or is_batch(action) or is_batch(reward):
+            if not self.batch: self._no_batches()
+            # ONE update per batch: differs from what the same rows taught one at a time would leave behind
+            self.n_learn += 1
+            lst = lambda v: list(v) if is_batch(v) else v
+            self.mem["trace"].append(h32(self.mem["trace"][-1] if self.mem["trace"] else 0, lst(action), lst(reward)))
+            self.h = h32(self.h, lst(context), lst(action), lst(reward), lst(probability), "batch")
+            if self.info: CobaContext.learning_info["hist"] = self.h % 9973
+            return
         k = None
         if self.fmt.endswith("_kw"):
             k = kwargs["k"]
-            if k != self.h % 100003:
+            # with the row-by-row batch fallback all predictions of a batch precede its learns: any outstanding value is fine
+            if k not in self.mem["issued"]:
                 raise AssertionError(f"HistoryLearner {self.tag}: kwargs of another prediction/learner came back")
+            self.mem["issued"].remove(k)
+            del self.mem["issued"][:-16]
         elif kwargs:
             raise AssertionError(f"HistoryLearner {self.tag}: unexpected kwargs {sorted(kwargs)}")
         self.n_learn += 1
@@ -119,11 +156,16 @@ class FaultyLearner(Learner):
     def score(self, context, actions, action):
         return self.inner.score(context, actions, action)
 
+    # The wrapper takes no batches: a batched call fails visibly *before* it counts, so SafeLearner falls back to row-by-row calls
+    # and the j-th per-row call is the one that raises (an InjectedFault raised by the batched probe itself would be absorbed by
+    # that fallback by design and the evaluation would succeed).
     def predict(self, context, actions):
+        if is_batch(actions) or is_batch(context): raise TypeError("FaultyLearner takes no batches")
         self._tick("predict")
         return self.inner.predict(context, actions)
 
     def learn(self, context, action, reward, probability, **kwargs):
+        if is_batch(context) or is_batch(action) or is_batch(reward): raise TypeError("FaultyLearner takes no batches")
         self._tick("learn")
         return self.inner.learn(context, action, reward, probability, **kwargs)
 
@@ -166,8 +208,9 @@ def _reward_of(interaction, action):
 
 def _play(environment, learner, seed):
     """Yield (index, reward) while running learner through the environment on-policy (uses SafeLearner as coba's evaluators do)."""
+    from coba.environments import Unbatch
     lrn = SafeLearner(learner, seed)
-    for i, inter in enumerate(environment.read()):
+    for i, inter in enumerate(Unbatch().filter(environment.read())):     # these user evaluators work one interaction at a time
         a, p, kw = lrn.predict(inter.get("context"), inter["actions"])
         r = _reward_of(inter, a)
         lrn.learn(inter.get("context"), a, r, p, **kw)
